@@ -104,6 +104,7 @@ type State struct {
 	decls   []string
 	cells   map[int]Val
 	heap    map[string]string
+	heapNow map[string]string // allocation time bound of each heap array version
 	ghost   map[string]Val
 	globals map[string]Val
 	alive   string
@@ -169,6 +170,7 @@ func (st *State) clone() *State {
 	n.decls = append([]string(nil), st.decls...)
 	n.cells = copyMap(st.cells)
 	n.heap = copyMap(st.heap)
+	n.heapNow = copyMap(st.heapNow)
 	n.ghost = copyMap(st.ghost)
 	n.globals = copyMap(st.globals)
 	n.calls = copyMap(st.calls)
@@ -205,6 +207,13 @@ func (st *State) heapGet(name string) string {
 		return t
 	}
 	return name
+}
+
+func (st *State) heapBound(name string) string {
+	if t, ok := st.heapNow[name]; ok {
+		return t
+	}
+	return "now0"
 }
 
 func (st *State) markMod(name string) {
